@@ -15,6 +15,7 @@
 //                   n samples, so a rounding residue of a sample that left the window may survive < n further steps)
 // Nothing is sampled; dense letters are fixed LCG sequences (vf::lcg_val).
 #include "vf.hpp"
+#include <array>
 #include "ma-filter.h"
 
 using namespace vf;
@@ -72,6 +73,11 @@ static Sig coef_letter(const std::string& kind, int j, int nh, bool cplx) {
         if (kind == "imp") m = (k == j) ? 1.25 : 0.0;
         else if (kind == "sym") m = lcg_val(701, (uint64_t)std::min(k, nh - 1 - k));
         else if (kind == "sparse") m = (k % 4 == 1 || k == nh - 1) ? lcg_val(702, (uint64_t)k) : 0.0;
+        else if (kind == "nearsym") {   // symmetric plus an antisymmetric part of 1e-3 relative size
+            const int q = std::min(k, nh - 1 - k);
+            const double sg = (k < nh - 1 - k) ? 1.0 : (k > nh - 1 - k ? -1.0 : 0.0);
+            m = lcg_val(701, (uint64_t)q) + 1e-3 * sg * lcg_val(704, (uint64_t)q);
+        }
         else m = lcg_val(703, (uint64_t)k);
         if (cplx) {
             double re, im;
@@ -848,6 +854,184 @@ static void fftseq_case(Ctx& ctx, bool cplx, int nh, int block, int fftlen, bool
     ctx.nontrivial();
 }
 
+// ------------------------------------------------------------------------------------------------ scale invariance
+// Every entry point with a linear oracle is scale free: multiplying an operand by a power of two multiplies the exact result by
+// the same power of two, and so it does for every rounded intermediate of a threshold-free computation (as long as nothing
+// under- or overflows).  For coefficient / operand letters scaled by 2^ec and inputs scaled by 2^ex the output, scaled back
+// exactly, must (a) meet the a-priori rounding bound of the unit-scale case (that bound is relative to |c| |x|, i.e. scale
+// free) and (b) for |ec+ex| <= 700 equal the unit-scale output bit for bit.
+enum Entry { E_FIR = 0, E_CONV, E_FFT, E_XCORR, E_XAUTO, E_MA };
+static const char* ENAME[] = {"FirFilter::process", "FirFilter::conv", "FftFilter::process", "xcorr(a,b)", "xcorr(a)", "MAFilter::process"};
+
+static Sig scaled(const Sig& s, int e) {
+    Sig r = s;
+    for (size_t i = 0; i < r.size(); ++i) {
+        r.re[i] = (ld)std::ldexp((double)s.re[i], e);   // exact: the letters are doubles of magnitude 1e-6 .. 2
+        r.im[i] = (ld)std::ldexp((double)s.im[i], e);
+    }
+    return r;
+}
+struct SOut {
+    std::vector<double> re, im;
+    std::string err;
+};
+static SOut call_entry(Entry en, bool cplx, const Sig& c, const Sig& x, int n_ma) {
+    SOut o;
+    auto putr = [&](const arr_real& y) {
+        for (int i = 0; i < y.size(); ++i) o.re.push_back(y[i]), o.im.push_back(0.0);
+    };
+    auto putc = [&](const arr_cmplx& y) {
+        for (int i = 0; i < y.size(); ++i) o.re.push_back(y[i].re), o.im.push_back(y[i].im);
+    };
+    try {
+        switch (en) {
+        case E_FIR:
+            if (cplx) putc(dsplib::FirFilterC(to_cmplx(c)).process(to_cmplx(x)));
+            else putr(dsplib::FirFilterR(to_real(c)).process(to_real(x)));
+            break;
+        case E_CONV:
+            if (cplx) putc(dsplib::FirFilterC::conv(to_cmplx(x), to_cmplx(c)));
+            else putr(dsplib::FirFilterR::conv(to_real(x), to_real(c)));
+            break;
+        case E_FFT:
+            if (cplx) putc(dsplib::FftFilter(to_cmplx(c)).process(to_cmplx(x)));
+            else putr(dsplib::FftFilter(to_real(c)).process(to_real(x)));
+            break;
+        case E_XCORR:
+            if (cplx) putc(dsplib::xcorr(to_cmplx(c), to_cmplx(x)));
+            else putr(dsplib::xcorr(to_real(c), to_real(x)));
+            break;
+        case E_XAUTO:
+            if (cplx) putc(dsplib::xcorr(to_cmplx(c)));
+            else putr(dsplib::xcorr(to_real(c)));
+            break;
+        case E_MA:
+            if (cplx) putc(dsplib::MAFilterC(n_ma).process(to_cmplx(x)));
+            else putr(dsplib::MAFilterR(n_ma).process(to_real(x)));
+            break;
+        }
+    } catch (const std::exception& e) {
+        o.err = e.what();
+    }
+    return o;
+}
+
+// c: coefficient vector / first operand (unused for E_MA), x: input / second operand (unused for E_XAUTO)
+static void scale_case(Ctx& ctx, Entry en, bool cplx, const std::string& letter, int n1, int n2) {
+    const char* site = ENAME[en];
+    Sig c, x;
+    if (en != E_MA) c = letter == "tap0" ? coef_letter("imp", 0, n1, cplx) : letter == "tapL" ? coef_letter("imp", n1 - 1, n1, cplx) : coef_letter(letter, 0, n1, cplx);
+    if (en == E_MA) x = letter == "tap0" ? coef_letter("imp", 0, n2, cplx) : letter == "tapL" ? coef_letter("imp", n2 - 1, n2, cplx) : coef_letter(letter, 0, n2, cplx);
+    else if (en != E_XAUTO) x = in_letter("lcg", 0, n2, cplx);
+    // unit-scale reference and tolerance
+    Sig ref;
+    std::vector<double> tol;
+    if (en == E_FIR || en == E_CONV || en == E_FFT) {
+        Sig full;
+        std::vector<double> S;
+        fir_ref(c, x, cplx, full, S);
+        const double cn = (double)c.norm2(), xn = (double)x.norm2();
+        const int fftlen = 1 << ilog2(2L * n1);
+        const long off = en == E_CONV ? n1 - 1 : 0;
+        long n = en == E_CONV ? (long)n2 - n1 + 1 : n2;
+        ref.resize((size_t)n);
+        tol.resize((size_t)n);
+        for (long i = 0; i < n; ++i) {
+            ref.re[(size_t)i] = full.re[(size_t)(i + off)];
+            ref.im[(size_t)i] = full.im[(size_t)(i + off)];
+            tol[(size_t)i] = en == E_FFT ? 64.0 * ilog2(fftlen) * EPS * cn * xn : std::max(8.0 * EPS * cn * xn, (n1 + 8.0) * EPS * S[(size_t)(i + off)]);
+        }
+    } else if (en == E_XCORR || en == E_XAUTO) {
+        const Sig& b = en == E_XAUTO ? c : x;
+        xcorr_ref(c, b, ref);
+        tol.assign(ref.size(), 64.0 * std::max(1, ilog2((long)ref.size())) * EPS * (double)c.norm2() * (double)b.norm2());
+    } else {
+        const int n = n1, len = n2;
+        ref.resize((size_t)len);
+        tol.assign((size_t)len, 0.0);
+        for (int i = 0; i < len; ++i) {
+            ld sr = 0, si = 0, s2 = 0;
+            for (int q = std::max(0, i - n + 1); q <= i; ++q) sr += x.re[(size_t)q], si += x.im[(size_t)q];
+            for (int q = std::max(0, i - 2 * n + 1); q <= i; ++q) s2 += sqrtl(x.re[(size_t)q] * x.re[(size_t)q] + x.im[(size_t)q] * x.im[(size_t)q]);
+            ref.re[(size_t)i] = sr / n;
+            ref.im[(size_t)i] = si / n;
+            tol[(size_t)i] = (double)((2.0 * n + 8.0) * EPS * s2 / n);
+        }
+    }
+    const SOut y1 = call_entry(en, cplx, c, x, n1);
+    if (!y1.err.empty()) {
+        ctx.fail(site, "exception at unit scale: " + y1.err, "no exception", P().kv("what", "throw").kv("ec", 0).kv("ex", 0));
+        return;
+    }
+    // the FFT filter emits floor(len/bs)*bs samples: compare what it emits (its length is checked by the 'fir' cases)
+    const long n = en == E_FFT ? (long)y1.re.size() : (long)ref.size();
+    if ((long)y1.re.size() != n || n > (long)ref.size()) {
+        ctx.fail(site, fmt("output length %zu at unit scale", y1.re.size()), fmt("%zu", ref.size()), P().kv("what", "size").kv("ec", 0).kv("ex", 0));
+        return;
+    }
+    const int exps[] = {0, -60, -200, -600, 200};
+    std::vector<std::pair<int, int>> combos;
+    for (int ec : exps)
+        for (int ex : exps) {
+            if (en == E_MA && ec != 0) continue;
+            if (en == E_XAUTO && ex != 0) continue;
+            combos.push_back({ec, ex});
+        }
+    if (en == E_XCORR) {
+        combos.push_back({600, -600});
+        combos.push_back({-600, 600});
+        combos.push_back({400, -600});
+    }
+    long nbit = 0, napr = 0;
+    double worst = 0;
+    for (auto& cb : combos) {
+        const int ec = cb.first, ex = cb.second;
+        const int e = en == E_XAUTO ? 2 * ec : ec + ex;
+        if (e < -850 || e > 800) continue;   // result (or its rounding residues) would under- / overflow: out of domain
+        const SOut ys = call_entry(en, cplx, en == E_MA ? c : scaled(c, ec), en == E_XAUTO ? x : scaled(x, ex), n1);
+        const P det = P().kv("ec", ec).kv("ex", ex);
+        if (!ys.err.empty()) {
+            ctx.fail(site, fmt("operands scaled by 2^%d, 2^%d: exception: %s", ec, ex, ys.err.c_str()), "no exception", P(det).kv("what", "throw"));
+            continue;
+        }
+        if ((long)ys.re.size() != (long)y1.re.size()) {
+            ctx.fail(site, fmt("operands scaled by 2^%d, 2^%d: output length %zu", ec, ex, ys.re.size()), fmt("%zu as at unit scale", y1.re.size()),
+                     P(det).kv("what", "size"));
+            continue;
+        }
+        // (a) a-priori bound on the output scaled back exactly
+        Cmp r = compare(n, [&](long i) { return (double)ldexpl((ld)ys.re[(size_t)i], -e); }, [&](long i) { return (double)ldexpl((ld)ys.im[(size_t)i], -e); }, ref,
+                        [&](long i) { return tol[(size_t)i]; });
+        ++napr;
+        worst = std::max(worst, r.worst_ratio);
+        if (r.bad >= 0) {
+            ctx.fail(site,
+                     r.nonfinite ? fmt("operands scaled by 2^%d, 2^%d: non-finite output at %ld", ec, ex, r.bad)
+                                 : fmt("%s letter, operands scaled by 2^%d, 2^%d: |y[%ld]*2^%d - sum| = %.3g (unit-scale sum)", letter.c_str(), ec, ex, r.bad, -e,
+                                       r.err_at),
+                     fmt("<= %.3g (rounding accuracy, relative to |c| |x|)", r.tol_at), P(det).kv("i", r.bad).kv("what", "value"));
+            continue;
+        }
+        // (b) bit-exact scaling
+        if (e >= -700 && e <= 700 && !(ec == 0 && ex == 0)) {
+            ++nbit;
+            long bi = -1;
+            for (long i = 0; i < n && bi < 0; ++i)
+                if (!biteq(ys.re[(size_t)i], std::ldexp(y1.re[(size_t)i], e)) || !biteq(ys.im[(size_t)i], std::ldexp(y1.im[(size_t)i], e))) bi = i;
+            if (bi >= 0)
+                ctx.fail(site,
+                         fmt("%s letter, operands scaled by 2^%d, 2^%d: y[%ld] = %.17g is not the unit-scale output %.17g times 2^%d", letter.c_str(), ec, ex, bi,
+                             ys.re[(size_t)bi], y1.re[(size_t)bi], e),
+                         "bit-identical scaling (power-of-two scaling commutes with every rounding of a threshold-free computation)",
+                         P(det).kv("i", bi).kv("what", "bitscale"));
+        }
+    }
+    ctx.worst(fmt("scale: err/tol %s", ENAME[en]), worst);
+    ctx.note(fmt("scale: a-priori comparisons %s", ENAME[en]), napr);
+    ctx.note(fmt("scale: bit-exact comparisons %s", ENAME[en]), nbit);
+    ctx.nontrivial();
+}
+
 // ------------------------------------------------------------------------------------------------ main
 int main(int argc, char** argv) {
     Ctx ctx;
@@ -996,6 +1180,44 @@ int main(int argc, char** argv) {
             if (!ctx.take("mafilter.big", P().kv("n", n).kv("len", 70000))) continue;
             ma_case(ctx, n, 70000, true);
         }
+    }
+    // ---- scale invariance of every linear entry point
+    {
+        const char* letters[] = {"dense", "sparse", "nearsym", "tap0", "tapL"};
+        std::vector<int> nhs = {2, 3, 8, 17, 64, 129};
+        if (T) nhs = {2, 3, 4, 5, 7, 8, 16, 17, 31, 33, 64, 100, 129, 257};
+        for (int en = E_FIR; en <= E_FFT; ++en)
+            for (int cplx = 0; cplx < 2; ++cplx)
+                for (int nh : nhs)
+                    for (const char* lt : letters) {
+                        const int block = (1 << ilog2(2L * nh)) - nh + 1, len = 3 * block + 1;
+                        if (!ctx.take("scale", P().kv("entry", ENAME[en]).kv("cplx", cplx).kv("letter", lt).kv("n1", nh).kv("n2", len))) continue;
+                        scale_case(ctx, (Entry)en, cplx != 0, lt, nh, len);
+                    }
+        std::vector<std::array<int, 2>> xs = {{5, 3}, {16, 16}, {33, 20}, {100, 129}, {300, 7}};
+        if (T) xs = {{1, 1}, {2, 1}, {1, 2}, {5, 3}, {3, 5}, {16, 16}, {17, 16}, {33, 20}, {20, 33}, {64, 65}, {100, 129}, {300, 7}, {7, 300}, {1000, 1000}};
+        for (int cplx = 0; cplx < 2; ++cplx)
+            for (auto& a : xs)
+                for (const char* lt : letters) {
+                    if (!ctx.take("scale", P().kv("entry", ENAME[E_XCORR]).kv("cplx", cplx).kv("letter", lt).kv("n1", a[0]).kv("n2", a[1]))) continue;
+                    scale_case(ctx, E_XCORR, cplx != 0, lt, a[0], a[1]);
+                }
+        std::vector<int> as = {5, 16, 33, 129, 300};
+        if (T) as = {1, 2, 3, 5, 16, 17, 33, 64, 65, 129, 300, 1000};
+        for (int cplx = 0; cplx < 2; ++cplx)
+            for (int n : as)
+                for (const char* lt : letters) {
+                    if (!ctx.take("scale", P().kv("entry", ENAME[E_XAUTO]).kv("cplx", cplx).kv("letter", lt).kv("n1", n).kv("n2", 0))) continue;
+                    scale_case(ctx, E_XAUTO, cplx != 0, lt, n, 0);
+                }
+        std::vector<int> ms = {1, 2, 7, 16, 64, 129};
+        if (T) ms = {1, 2, 3, 4, 7, 8, 16, 17, 33, 64, 100, 129, 1000};
+        for (int cplx = 0; cplx < 2; ++cplx)
+            for (int n : ms)
+                for (const char* lt : letters) {
+                    if (!ctx.take("scale", P().kv("entry", ENAME[E_MA]).kv("cplx", cplx).kv("letter", lt).kv("n1", n).kv("n2", 3 * n + 5))) continue;
+                    scale_case(ctx, E_MA, cplx != 0, lt, n, 3 * n + 5);
+                }
     }
     return ctx.finish();
 }
